@@ -211,7 +211,10 @@ def check_argument(arg):
 
 def filter_float(value):
     """Change a floating point value that represents an integer into an
-    integer."""
+    integer (and a bool into the integer it equals, as the builder does
+    for an index or count that is written out)."""
+    if isinstance(value, bool):
+        return int(value)
     if isinstance(value, float) and float(value) == int(value):
         return int(value)
     return value
